@@ -1,4 +1,5 @@
 import FcpModel.Schema
+import FcpModel.Utf8
 /-!
 # Wire: the canonical FCP wire format (specification)
 
@@ -19,7 +20,7 @@ def wf : Ty → Val → Bool
   | .f32, .int i => 0 ≤ i && i < 2^32
   | .f64, .int i => 0 ≤ i && i < 2^64
   | .enum b, .int i => 0 ≤ i && i < 2^b
-  | .str, .str cs => cs.length < 2^32 && cs.all (· < 128)
+  | .str, .str cs => cs.length < 2^32 && utf8Valid cs
   | .arr t n, v => wfList (wf t) n v
   | .dyn t, v => vlen v < 2^32 && wfList (wf t) (vlen v) v
   | .opt _, .none => true
@@ -77,7 +78,7 @@ def dec : Ty → Bits → Option (Val × Bits)
     | none => none
     | some (n, r) => match decChars n r with
       | none => none
-      | some (cs, r') => if cs.all (· < 128) then some (.str cs, r') else none
+      | some (cs, r') => if utf8Valid cs then some (.str cs, r') else none
   | .arr t n, bs => decList (dec t) n bs
   | .dyn t, bs => match readN 32 bs with
     | none => none
@@ -102,7 +103,7 @@ theorem toNat_lt_of_lt {i : Int} {n : Nat} (h0 : 0 ≤ i) (h1 : i < 2^n) : i.toN
   have : ((i.toNat : Nat) : Int) < ((2^n : Nat) : Int) := by push_cast; omega
   exact Int.ofNat_lt.mp this
 
-theorem decChars_enc (cs : List Nat) (h : cs.all (· < 128) = true) (rest : Bits) :
+theorem decChars_enc (cs : List Nat) (h : cs.all (· < 256) = true) (rest : Bits) :
     decChars cs.length (encChars cs ++ rest) = some (cs, rest) := by
   induction cs with
   | nil => simp [decChars, encChars]
@@ -171,7 +172,7 @@ theorem dec_enc (t : Ty) : ∀ (v : Val) (rest : Bits), wf t v = true →
     cases v <;> simp_all [wf, enc, dec]
     rename_i cs
     rw [readN_natBits 32 _ _ h.1]
-    have := decChars_enc cs (by simpa using h.2) rest
+    have := decChars_enc cs (utf8Valid_bytes cs h.2) rest
     simp only [this]
     simpa using h.2
   | arr t n ih =>
